@@ -286,7 +286,73 @@ def c13():
                              'get() hands the lock to the caller exactly on a hit and the handle releases it on destruction.')
 
 
-REGISTRY = {'C13': c13, 'C16': c16, 'C02': c02, 'C01': c01, 'C07': c07, 'C11': c11, 'C12': c12, 'C15': c15}
+FAULT_CASES = {'leaf': 4, 'i4_3': 6, 'i4_4': 3, 'i16_5': 4, '2lvl': 6, 'collapse': 4}
+FAULT_DEPTH = {'leaf': 2, 'i4_3': 2, 'i4_4': 2, 'i16_5': 2, '2lvl': 3, 'collapse': 3}
+
+
+def fault_unit(kind='db', config='base'):
+    return U('fault.cpp', config, defines=['DBKIND=%d' % DBKINDS[kind]], max_node_type=2)
+
+
+def fault_queries(kind='db', config='base'):
+    u = fault_unit(kind, config)
+    sfx = '' if (kind, config) == ('db', 'base') else '-%s-%s' % (kind, config)
+    qs = []
+    for name, ncase in FAULT_CASES.items():
+        lb = [('::(get|insert|remove)_internal', FAULT_DEPTH[name] + 2)]
+        for i in range(ncase):
+            for op, what in (('rins', 'insert'), ('rrem', 'remove')):
+                qs.append(Query('%s_%s_%d%s' % (op, name, i, sfx), u, '%s_%s_%d' % (op, name, i), unwind=10, flags=['--paths', 'lifo'], loop_bounds=lb,
+                                about='prelude "%s", %s of structural-case key #%d with the k-th allocation failing for symbolic k in 0..3 (every path decided separately), '
+                                      'state compared before/after, then the retry without fault' % (name, what, i),
+                                bounds={'prelude': name, 'key': 'generated structural case', 'fault_index': 'symbolic 0..3', 'faults_per_operation': 1}))
+    for h in ('h_too_long_absent_0', 'h_too_long_absent_1', 'h_too_long_absent_2', 'h_too_long_present'):
+        qs.append(Query(h + sfx, u, h, unwind=10, flags=['--paths', 'lifo'], loop_bounds=[('::(get|insert|remove)_internal', 4)],
+                        about='insert with a value length of 2^32 / 2^32+5 / SIZE_MAX: length_error before any allocation, state unchanged', bounds={'value_len': '> 2^32-1'}))
+    return qs
+
+
+def stats_queries(kind='db', config='base'):
+    u = fault_unit(kind, config)
+    sfx = '' if (kind, config) == ('db', 'base') else '-%s-%s' % (kind, config)
+    qs = []
+    for name in FAULT_CASES:
+        lb = [('::(get|insert|remove)_internal', FAULT_DEPTH[name] + 1)]
+        for op, what in (('sins', 'insert'), ('srem', 'remove')):
+            quick = name == 'leaf' or (name, op) == ('i4_3', 'srem')
+            qs.append(Query('%s_%s%s' % (op, name, sfx), u, '%s_%s' % (op, name), unwind=10, flags=['--slice-formula'], loop_bounds=lb, tier='quick' if quick else 'thorough',
+                            timeout=None if quick else 3400, mem_gb=None if quick else 40, weight=1 if quick else 4,
+                            about='prelude "%s" then one %s with a fully symbolic 64-bit key: getters vs. the reference shape computed from the key set' % (name, what),
+                            bounds={'prelude': name, 'key_bits': 64}))
+    for h in ('clr_i4_3', 'clr_i4_3x', 'clr_i16_5', 'clr_2lvl'):
+        qs.append(Query(h + sfx, u, h, unwind=10, flags=['--slice-formula'], about='clear() on a concrete tree: everything zero, every block returned'))
+    qs.append(Query('rt_leaf' + sfx, u, 'rt_leaf', unwind=10, flags=['--slice-formula'], loop_bounds=[('::(get|insert|remove)_internal', 3)], tier='thorough', timeout=3400, mem_gb=40, weight=4,
+                    about='insert(k); remove(k) with symbolic k restores all current-state getters'))
+    return qs
+
+
+def c08():
+    return Check('C08', 'fault_enumeration', fault_queries('db', 'base'),
+                 assumptions=['allocation model: the k-th allocation (posix_memalign / operator new) since arming returns failure; one fault per operation',
+                              'keys are generated structural cases (duplicate, leaf split at first/middle/last byte, add front/middle/back, prefix split, grow, shrink, collapse) - concrete - '
+                              'while the fault position is symbolic; CBMC decides every path separately (--paths lifo), so no fault position within the bound is skipped',
+                              'fully symbolic key x symbolic fault position in one merged query exhausts 24 GB (measured) and is outside the claim',
+                              'db instantiation; olc_db/mutex_db variants only in the thorough tier where they fit'],
+                 explanation='For each generated (tree, key, operation) and EVERY fault position k (symbolic, 0..3: beyond the number of allocations any operation here makes) the solver checks: exception type, '
+                             'unchanged entries/values/statistics/live allocations after the failure, and the normal result of the retry. Over-long values: length_error with no effect.')
+
+
+def c10():
+    qs = stats_queries('db', 'base') + [q for q in fault_queries('db', 'base') if q.entry.startswith('r')]
+    return Check('C10', 'model_checking', qs,
+                 assumptions=['reference shape = number of inner nodes per fan-out class of the path-compressed radix tree, computed in the harness from the sorted key list (adjacent common-prefix lengths), '
+                              'node sizes from the type layout (sizeof), independent of the tree code',
+                              'allocation accounting: live block counter of the allocation model'],
+                 explanation='After one operation with a fully symbolic key on catalogue trees (and on the generated structural cases with faults) the public getters equal the reference computed from the key set; '
+                             'growth/shrink counters are monotone and move exactly with a structural change; clear() zeroes everything and returns every block; insert+remove restores the getters.')
+
+
+REGISTRY = {'C08': c08, 'C10': c10, 'C13': c13, 'C16': c16, 'C02': c02, 'C01': c01, 'C07': c07, 'C11': c11, 'C12': c12, 'C15': c15}
 
 
 def get(pid):
